@@ -41,7 +41,12 @@ def plan(tier, seed):
   # an unclassified alarm must not be shipped, so the tier is limited to the depth swept quiet.
   fams = [seed] if tier == 'quick' else [seed, seed + 1, seed + 2, seed + 3]
   return [{'witness': 'summary_error_keys'}, {'witness': 'trigger_on_error_cells'}, {'witness': 'self_lookup_cycle'}] + \
-         [{'hseed': f * 100003 + i, 'steps': 40} for f in fams for i in range(16)]
+         [{'hseed': f * 100003 + i, 'steps': 40} for f in fams for i in range(16)] + \
+         [{'hseed': f * 100003 + 50000 + i, 'steps': 40, 'stream': 'B'} for f in fams for i in range(8)]
+
+# Stream B (see props/C02.py): bundles in which several actions touch the same rows / cells / columns.
+WEIGHTS_B = {'replace_data': 1.5, 'upsert': 2}
+FLAGS_B = {'patterns': 0.35, 'invalid_off': ('short_bulk',)}
 
 
 def witness_summary_error_keys(acc):
@@ -147,5 +152,11 @@ def run_shard(spec, acc):
   if spec.get('witness'):
     return globals()['witness_' + spec['witness']](acc)
   mon = histories.UndoRedoMonitor(check_undo=True, check_redo=False, classify=classify)
-  h = histories.History(acc, spec['hseed'], [mon], spec['steps'])
+  if spec.get('stream') == 'B':
+    h = histories.History(acc, spec['hseed'], [mon], spec['steps'], weights=WEIGHTS_B, flags=FLAGS_B)
+    acc.count('stream_B_histories')
+  else:
+    h = histories.History(acc, spec['hseed'], [mon], spec['steps'])
   h.run()
+  for k, v in getattr(h.gen, 'pattern_counts', {}).items():
+    acc.count('pattern.' + k, v)
